@@ -430,6 +430,14 @@ func (e *Engine) NewTx(ctx context.Context, opts *TxOptions) (*SQLTx, error) {
 	openVersion := e.cachedCatalogVersion.Load()
 	e.catalogMu.RUnlock()
 
+	if cached != nil && opts.ReadOnly && e.ddlCommitsInFlight.Load() > 0 {
+		// a DDL transaction is between its store commit and the invalidation of
+		// the cache: the cached catalog may be older than commits that were
+		// already acknowledged (those serialized after the DDL commit), so this
+		// transaction loads the catalog from its own snapshot
+		cached = nil
+	}
+
 	if cached != nil && opts.ReadOnly {
 		// Read-only transactions cannot mutate the schema, so they share the
 		// cached catalog directly. Sequences and views are already loaded in
